@@ -227,6 +227,6 @@ func pkcs1PublicKeyAttributes(k asn1struct.PKCS1PublicKey) []Attribute {
 func rsaPublicKeyAttributes(k rsa.PublicKey) []Attribute {
 	return []Attribute{
 		{"Algorithm", names.RSA},
-		{"Size", fmt.Sprintf("%d bits", k.Size()*8)},
+		{"Size", fmt.Sprintf("%d bits", k.N.BitLen())},
 	}
 }
